@@ -41,13 +41,12 @@ pub fn dead_code_elimination(function: &il::Function) -> Result<il::Function, Er
             };
             let rpl = il::RefProgramLocation::new(function, rfl);
 
-            rd.get(&rpl.into())
-                .unwrap()
-                .locations()
-                .iter()
-                .for_each(|location| {
+            // blocks unreachable from the entry have no reaching definitions
+            if let Some(reaching) = rd.get(&rpl.into()) {
+                reaching.locations().iter().for_each(|location| {
                     live.insert(location.function_location().clone());
                 });
+            }
         });
 
     for block in function.blocks() {
@@ -94,7 +93,12 @@ pub fn dead_code_elimination(function: &il::Function) -> Result<il::Function, Er
                 .unwrap_or(false)
         })
         .filter(|location| !live.contains(&location.clone().into()))
-        .filter(|location| du[&location.clone().program_location(function).into()].is_empty())
+        .filter(|location| {
+            // instructions unreachable from the entry are left alone
+            du.get(&location.clone().program_location(function).into())
+                .map(|uses| uses.is_empty())
+                .unwrap_or(false)
+        })
         .map(|l| l.into())
         .collect::<Vec<il::FunctionLocation>>();
 
